@@ -105,6 +105,40 @@ def parse_routes(prog, cls: ClassInfo) -> Tuple[Dict[str, Set[str]], Optional[as
     return out, ctor[-1]
 
 
+def rule_image_routes(ctx) -> None:
+    """C04.image-routes: a constructor argument of BootImageV20 / BootImageV21 that is stored in a header field is rebuilt by parse()
+    from that same header field - otherwise the parsed image silently carries the constructor's default (e.g. the flags word)."""
+    chk, prog = ctx.chk, ctx.prog
+    n = 0
+    for cname in ("BootImageV20", "BootImageV21"):
+        cls = ctx.cls(IMG, cname)
+        init = prog.find_method(cls, "__init__")
+        parse = prog.find_method(cls, "parse")
+        if init is None or parse is None:
+            raise AnalysisError(f"C04.image-routes: {cname}.__init__ / parse not found")
+        chk.analysed(init.qual, parse.qual)
+        params = {a.arg for a in init.node.args.args + init.node.args.kwonlyargs}
+        hdr = [c for c in A.calls_in(init.node, "ImageHeaderV2")]
+        if not hdr:
+            raise AnalysisError(f"C04.image-routes: {cname}.__init__ does not build an ImageHeaderV2")
+        stored = {k.arg: k.value.id for k in hdr[0].keywords if k.arg and isinstance(k.value, ast.Name) and k.value.id in params}
+        ctors = [c for c in A.calls_in(parse.node) if isinstance(c.func, ast.Name) and c.func.id in ("cls", cname)]
+        if not ctors:
+            raise AnalysisError(f"C04.image-routes: {cname}.parse does not construct the class")
+        ctor = ctors[-1]
+        pr: Dict[str, Set[str]] = {}
+        for k in ctor.keywords:  # (the positional parameters in front of *sections are not header fields)
+            if k.arg:
+                val = A.inline_locals_multi(parse.node, k.value, _stack=("header",))
+                pr[k.arg] = {a.split(".")[-1] for a in A.attrs_in(val) if a.startswith("header.") and a.count(".") == 1}
+        for field, param in sorted(stored.items()):
+            n += 1
+            chk.decide(field in pr.get(param, set()), "C04.image-routes", f"{IMG}::{cname} `{param}`", f"header field `{field}` is given back to the constructor as `{param}` by parse",
+                       f"constructor stores `{param}` in header.{field}, parse rebuilds it from {sorted(pr.get(param, set())) or 'nothing (the default is used)'}",
+                       f"{param}=header.{field}", A.loc(IMG, ctor))
+    chk.floor("C04.image-routes", 7)
+
+
 def rule_routes(ctx) -> None:
     chk, prog = ctx.chk, ctx.prog
     n = 0
@@ -539,6 +573,7 @@ def run(ctx) -> None:
                     "setter guards decided against the header item widths; memory-id bit placement by bit provenance.")
     ctx.rule(rule_wire)
     ctx.rule(rule_routes)
+    ctx.rule(rule_image_routes)
     ctx.rule(rule_setters)
     ctx.rule(rule_memid)
     ctx.rule(rule_mustcheck)
